@@ -26,8 +26,29 @@ RULE = (
     "(sha256 over all files, stores and the canonical index dump)"
 )
 
-_ZID_TOKEN = re.compile(r"(?<![^ ])(\d{6}#[0-9A-Za-z]{2,3}) ")
+_ZID_TOKEN = re.compile(r"(?<![^ ])(\d{6}#[0-9A-Za-z]{2,3})(?: |$)")
 _LONG_LEAD = re.compile(r"^([-ox~<>] +(?:P\d +)?)(\d{4}-\d{2}-\d{2}) ")
+
+
+_LONG_ONLY = re.compile(r"^([-ox~<>] (?:P\d )?)\d{4}-\d{2}-\d{2}$")
+
+
+def _real_priority(line: str) -> Optional[str]:
+    """The priority of an item first line per the grammar: todos only, exactly
+    one space after the kind character, and followed by body text."""
+    if line[0] == "-":
+        return None
+    m = re.match(r"^[ox~<>] (P\d) +\S", line)
+    return m.group(1) if m else None
+
+
+def norm_gap(line: str) -> str:
+    """Collapse the spaces between the kind/priority prefix and the first body word."""
+    prio = _real_priority(line)
+    rest = line[2:]
+    if prio:
+        rest = rest[3:]
+    return f"{line[0]} " + (prio + " " if prio else "") + rest.lstrip(" ")
 
 
 def gen_case(rng: random.Random, tier: str) -> dict:
@@ -92,18 +113,25 @@ def explain_diff(orig: dict, new: dict, orig_canon: dict, rec: hist.Rec) -> Opti
             if not m:
                 return hist.viol("changed-line-has-no-zid", shape, page=rel, line=i + 1, before=a, after=b)
             zid = m.group(1)
-            stripped = b[: m.start(1)] + b[m.end(0) :]
-            expect = a
-            lm = _LONG_LEAD.match(a)
+            kind, prio = a[0], _real_priority(a)
+            body = a[2:]
+            if prio:
+                body = body[3:]
+            body = body.lstrip(" ")
+            lm = re.match(r"^\d{4}-\d{2}-\d{2}( |$)", body)
             if lm:
-                expect = a[: lm.start(2)] + a[lm.end(0) :]
+                body = body[lm.end() :]
                 rec.probe("long-date-replaced")
-            if stripped != expect:
-                return hist.viol("zid-insertion-altered-line", shape, page=rel, line=i + 1, before=a, after=b, zid=zid)
-            # "after the kind/priority prefix"
-            head = b[: m.start(1)]
-            if not re.fullmatch(r"[-ox~<>] +(P\d +)?", head) or (a[0] == "-" and "P" in head):
+            want_head = f"{kind} " + (prio + " " if prio else "")
+            # spaces between prefix, ZID and the first body word may shrink or stay
+            # (the statement fixes where the ZID goes, not the spacing around it)
+            got_head = re.sub(r" +", " ", b[: m.start(1)])
+            got_tail = b[m.end(1) :].lstrip(" ").rstrip(" ")
+            if got_head != want_head:
                 return hist.viol("zid-not-after-prefix", shape, page=rel, line=i + 1, before=a, after=b)
+            if got_tail != body.lstrip(" ").rstrip(" "):
+                return hist.viol("zid-insertion-altered-line", shape, page=rel, line=i + 1, before=a, after=b, zid=zid)
+            head = got_head
             if re.fullmatch(r"[ox~<>] +P\d +", head):
                 rec.probe("priority-and-new-zid")
             rec.probe("zid-written-back")
